@@ -674,7 +674,7 @@ def run(ctx):
                     flag(ev, msg, state_docs, hist_msgs, f"diagnostics differ from `garden check`: {what}",
                          {"published": n["params"]["diagnostics"], "expected": [list(x[:2]) + [list(x[2])] for x in exp], "text": text},
                          doc="text:" + DOC_NAME.get(text, "?"))
-        elif ev.method == "textDocument/didClose" and ev.pclass == "valid":
+        elif isinstance(ev.msg, dict) and ev.msg.get("method") == "textDocument/didClose" and ev.pclass == "valid":
             if any(n["params"]["diagnostics"] for n in pubs):
                 ctx.outcome("didClose publishes non-empty diagnostics")
 
@@ -863,7 +863,7 @@ def all_histories(ctx, CH, PR, rep, probe_out, check_message, flag, length):
             check_message(ev, msgs[k], rs[k], dict(docs), msgs[:k])
             if ev.diag_for:
                 docs[PATH[ev.diag_for[0]]] = ev.diag_for[1]
-            elif ev.method == "textDocument/didClose":
+            elif isinstance(ev.msg, dict) and ev.msg.get("method") == "textDocument/didClose" and ev.pclass == "valid":
                 docs.pop(PATH[ev.target], None)
             elif ev.method == "shutdown":
                 sd = True
